@@ -994,13 +994,27 @@ func (s *UtxoSweeper) markInputsPublishFailed(set InputSet,
 		// Update the input's state.
 		pi.state = PublishFailed
 
+		// The fee rate specified from the BumpResult should be the
+		// starting fee rate to use for the next sweeping attempt. An
+		// attempt that failed before a tx could be created reports no
+		// fee rate at all, and an attempt made in a group with a lower
+		// fee rate ceiling reports that group's ceiling. In both cases
+		// we must not go back below the fee rate this input has
+		// already been offered at, so we never lower the starting fee
+		// rate here.
+		startingFeeRate := pi.params.StartingFeeRate.UnwrapOr(0)
+		if feeRate < startingFeeRate {
+			log.Debugf("Input(%v): keeping starting fee rate %v, "+
+				"failed attempt reported %v", op,
+				startingFeeRate, feeRate)
+
+			continue
+		}
+
 		log.Debugf("Input(%v): updating params: starting fee rate "+
 			"[%v -> %v]", op, pi.params.StartingFeeRate,
 			feeRate)
 
-		// Update the input using the fee rate specified from the
-		// BumpResult, which should be the starting fee rate to use for
-		// the next sweeping attempt.
 		pi.params.StartingFeeRate = fn.Some(feeRate)
 	}
 }
